@@ -373,7 +373,7 @@ pub fn bytes_strategy(_tier: Tier) -> BoxedStrategy<Case> {
 pub fn property() -> Property {
     Property {
         id: "C14",
-        rule: "operation histories (<=40 ops quick / <=120 thorough) over Acyclic<DiGraph> and Acyclic<StableDiGraph> with u8 and u32 indices: add_node, try_add_edge / try_update_edge / Build::add_edge / Build::update_edge between live nodes (incl. self-loops, edges closing cycles and edges against the current order), remove_edge (live and absent), remove_node of present nodes (incl. non-last nodes of a DiGraph) and of absent / vacant / out-of-range indices; after every step the inner graph is compared with the reference multigraph of C01/C02, and the order bookkeeping is checked: nodes_iter = live nodes once, positions strictly increasing, at_position inverse of get_position, every edge forward, range(..) and partial ranges, is_valid_edge for all ordered pairs = no path back (Warshall); insertions accepted iff valid with the right error kind; a rejected call leaves graph and order sequence identical; non-trivial = a renumbering (DiGraph) or absent-node (StableDiGraph) removal followed by an accepted edge that needed a reorder. Second sub-check: try_from_graph / TryFrom on random digraphs (DiGraph, StableDiGraph with vacancies): Ok iff acyclic, initial order valid, Cycle names a node on a cycle. Distinct by case fingerprint",
+        rule: "operation histories (<=40 ops quick / <=120 thorough) over Acyclic<DiGraph> and Acyclic<StableDiGraph> with u8 and u32 indices: add_node, try_add_edge / try_update_edge / Build::add_edge / Build::update_edge between live nodes (incl. self-loops, edges closing cycles and edges against the current order), remove_edge (live and absent), remove_node of present nodes (incl. non-last nodes of a DiGraph) and of absent / vacant / out-of-range indices; after every step the inner graph is compared with the reference multigraph of C01/C02, and the order bookkeeping is checked: nodes_iter = live nodes once, positions strictly increasing, at_position inverse of get_position, every edge forward, range(..) and partial ranges, is_valid_edge for all ordered pairs = no path back (Warshall); insertions accepted iff valid with the right error kind; a rejected call leaves graph and order sequence identical; non-trivial = a renumbering (DiGraph) or absent-node (StableDiGraph) removal followed by an accepted edge that needed a reorder. Second sub-check: try_from_graph / TryFrom on random digraphs (DiGraph, StableDiGraph with vacancies): Ok iff acyclic, initial order valid, Cycle names a node on a cycle. Distinct by case fingerprint; the *-from-bytes sub-checks feed the same interpreter with histories decoded from generated byte strings by the libFuzzer codec (all operation kinds equally likely, up to the thorough-tier length)",
         assumptions: &["insertions are only attempted between live nodes (try_add_edge documents a panic otherwise); histories stop when the inner graph's index space is exhausted"],
         both_profiles: false,
         subs: vec![
